@@ -378,8 +378,8 @@ Do(st, op) ==
 \* is_heap_allocated(); per live buffer its allocation size; "the static texts
 \* are intact"; "Some(handle) is Some for every live handle"
 ProjH(r, bt) ==
-  IF r.k = "D" THEN [k |-> "D", text |-> <<>>, len |-> 0, cap |-> 0, last |-> 0, pc |-> "none", pid |-> 0, rc |-> 0, heap |-> FALSE]
-  ELSE [k |-> r.k, text |-> RText(r, bt), len |-> RLen(r), cap |-> RCap(r, bt), last |-> RLast(r), heap |-> (r.k = "H"),
+  IF r.k = "D" THEN [k |-> "D", text |-> <<>>, len |-> 0, cap |-> 0, last |-> 0, pc |-> "none", pid |-> 0, rc |-> 0, heap |-> FALSE, rd |-> ""]
+  ELSE [k |-> r.k, rd |-> "", text |-> RText(r, bt), len |-> RLen(r), cap |-> RCap(r, bt), last |-> RLast(r), heap |-> (r.k = "H"),
         pc  |-> (CASE r.k = "I" -> "self" [] r.k = "S" -> "static" [] OTHER -> "heap"),
         pid |-> (IF r.k = "I" THEN 0 ELSE r.id),
         rc  |-> (IF r.k = "H" THEN bt[r.id].rc ELSE 0)]
